@@ -379,6 +379,20 @@ func main() {
 			e.Strs("skipPerAggregation", exprs, "aggregationArgsFromProto: value of SkipWithoutTimestamp inside `for i, agg := range aggs`")
 			_ = inLoop
 		}
+		// JSON rendering of the public API: every strconv.FormatFloat of the marshaler uses bitSize 64 and the
+		// shortest round-trip form (precision -1)
+		if f, err := r.Load("pkg/seqproxyapi/v1/marshaler.go"); err != nil {
+			e.Missing("jsonFormatFloatArgs", err)
+		} else {
+			var args []string
+			ast.Inspect(f.AST, func(n ast.Node) bool {
+				if c, ok := n.(*ast.CallExpr); ok && f.Render(c.Fun) == "strconv.FormatFloat" && len(c.Args) == 4 {
+					args = append(args, f.Render(c.Args[1])+","+f.Render(c.Args[2])+","+f.Render(c.Args[3]))
+				}
+				return true
+			})
+			e.Strs("jsonFormatFloatArgs", args, "pkg/seqproxyapi/v1/marshaler.go: (fmt, prec, bitSize) of every strconv.FormatFloat")
+		}
 		se, err := r.Load("frac/processor/search.go")
 		if err != nil {
 			e.Missing("search.go", err)
@@ -449,5 +463,5 @@ func main() {
 			})
 			e.Strs("extractTimeRule", rule, "provideExtractTimeFunc: guard and the returned bin expressions")
 		}
-	}, "consts/consts.go", "seq/qpr.go", "frac/processor/eval_tree.go", "frac/processor/search.go", "frac/processor/aggregator.go", "frac/active_index.go", "frac/sealed_index.go", "node/sourced_node_wrapper.go", "seq/seq.go", "storeapi/grpc_search.go", "proxy/search/ingestor.go", "proxyapi/grpc_v1.go", "pkg/storeapi/store_api.pb.go", "proxyapi/grpc_complex_search.go")
+	}, "consts/consts.go", "seq/qpr.go", "frac/processor/eval_tree.go", "frac/processor/search.go", "frac/processor/aggregator.go", "frac/active_index.go", "frac/sealed_index.go", "node/sourced_node_wrapper.go", "seq/seq.go", "storeapi/grpc_search.go", "proxy/search/ingestor.go", "proxyapi/grpc_v1.go", "pkg/storeapi/store_api.pb.go", "proxyapi/grpc_complex_search.go", "pkg/seqproxyapi/v1/marshaler.go")
 }
